@@ -78,3 +78,137 @@ def diff_state(exp, d1):
     if len(d1['history']) != exp['nhist']:
         out.append('history_length')
     return out
+
+
+# ------------------------------------------------------------------ attacks / move generation (concrete, mailbox)
+
+KNIGHT_D = [(2, 1), (2, -1), (-2, 1), (-2, -1), (1, 2), (1, -2), (-1, 2), (-1, -2)]
+KING_D = [(1, 0), (-1, 0), (0, 1), (0, -1), (1, 1), (1, -1), (-1, 1), (-1, -1)]
+ROOK_D = [(1, 0), (-1, 0), (0, 1), (0, -1)]
+BISHOP_D = [(1, 1), (1, -1), (-1, 1), (-1, -1)]
+
+
+def attacked_by(mb, by):
+    """set of squares attacked by colour `by`"""
+    out = set()
+    for s, (k, c) in mb.items():
+        if c != by:
+            continue
+        r0, f0 = divmod(s, 8)
+        if k == B.KNIGHT or k == B.KING:
+            for dr, df in (KNIGHT_D if k == B.KNIGHT else KING_D):
+                r, f = r0 + dr, f0 + df
+                if 0 <= r < 8 and 0 <= f < 8:
+                    out.add(r * 8 + f)
+        elif k == B.PAWN:
+            r = r0 + (1 if c == 0 else -1)
+            for df in (-1, 1):
+                f = f0 + df
+                if 0 <= r < 8 and 0 <= f < 8:
+                    out.add(r * 8 + f)
+        else:
+            dirs = (ROOK_D if k in (B.ROOK, B.QUEEN) else []) + (BISHOP_D if k in (B.BISHOP, B.QUEEN) else [])
+            for dr, df in dirs:
+                r, f = r0 + dr, f0 + df
+                while 0 <= r < 8 and 0 <= f < 8:
+                    out.add(r * 8 + f)
+                    if r * 8 + f in mb:
+                        break
+                    r += dr
+                    f += df
+    return out
+
+
+def mask_of(squares):
+    v = 0
+    for s in squares:
+        v |= 1 << s
+    return v
+
+
+def pseudo_moves_from(d, s):
+    """reference pseudo-legal move records (as comparable tuples) of the piece on square s:
+       (sr, sf, dr, df, promo_kind|-1, castles, ep, double)  -- captured piece is implied by the position"""
+    mb = mailbox(d)
+    k, c = mb[s]
+    r0, f0 = divmod(s, 8)
+    out = []
+
+    def add(t, promo=-1, castles=0, ep=0, dbl=0):
+        out.append((r0, f0, t // 8, t % 8, promo, castles, ep, dbl))
+    if k in (B.KNIGHT, B.KING):
+        for dr, df in (KNIGHT_D if k == B.KNIGHT else KING_D):
+            r, f = r0 + dr, f0 + df
+            if 0 <= r < 8 and 0 <= f < 8 and mb.get(r * 8 + f, (None, None))[1] != c:
+                add(r * 8 + f)
+        if k == B.KING:
+            rights = d['history'][-1]['rights']
+            home = 4 if c == 0 else 60
+            if s == home and d['turn'] == c:
+                att = attacked_by(mb, 1 - c)
+                ks, qs = (0, 1) if c == 0 else (2, 3)
+                if rights[ks] == 0 and all(x not in mb for x in (home + 1, home + 2)) and not any(x in att for x in (home, home + 1, home + 2)):
+                    add(home + 2, castles=1)
+                if rights[qs] == 0 and all(x not in mb for x in (home - 1, home - 2, home - 3)) and not any(x in att for x in (home, home - 1, home - 2)):
+                    add(home - 2, castles=1)
+    elif k == B.PAWN:
+        fwd = 1 if c == 0 else -1
+        last = 7 if c == 0 else 0
+        homer = 1 if c == 0 else 6
+        epr = 4 if c == 0 else 3
+
+        def addp(t, **kw):
+            if t // 8 == last:
+                for pr in (B.QUEEN, B.ROOK, B.KNIGHT, B.BISHOP):
+                    add(t, promo=pr)
+            else:
+                add(t, **kw)
+        r = r0 + fwd
+        if 0 <= r < 8:
+            for df in (-1, 1):
+                f = f0 + df
+                if 0 <= f < 8 and mb.get(r * 8 + f, (None, None))[1] == 1 - c:
+                    addp(r * 8 + f)
+            if r * 8 + f0 not in mb:
+                addp(r * 8 + f0)
+                if r0 == homer and (r + fwd) * 8 + f0 not in mb:
+                    add((r + fwd) * 8 + f0, dbl=1)
+            if r0 == epr and d['ep'] >= 0 and abs(d['ep'] - f0) == 1:
+                add(r * 8 + d['ep'], ep=1)
+    else:
+        dirs = (ROOK_D if k in (B.ROOK, B.QUEEN) else []) + (BISHOP_D if k in (B.BISHOP, B.QUEEN) else [])
+        for dr, df in dirs:
+            r, f = r0 + dr, f0 + df
+            while 0 <= r < 8 and 0 <= f < 8:
+                t = r * 8 + f
+                if t in mb:
+                    if mb[t][1] != c:
+                        add(t)
+                    break
+                add(t)
+                r += dr
+                f += df
+    return out
+
+
+def ply_key(p):
+    """comparable tuple of a native/parsed ply dict in the same format as pseudo_moves_from"""
+    return (p['sr'], p['sf'], p['dr'], p['df'], p['promo'], p['castles'], p['ep'], p['double'])
+
+
+def legal_moves(d):
+    """reference legal moves of the side to move: pseudo-legal moves after which the own king is not attacked"""
+    mb = mailbox(d)
+    me = d['turn']
+    out = []
+    for s, (k, c) in sorted(mb.items()):
+        if c != me:
+            continue
+        for mv in pseudo_moves_from(d, s):
+            p = {'sr': mv[0], 'sf': mv[1], 'dr': mv[2], 'df': mv[3], 'promo': mv[4], 'castles': mv[5], 'ep': mv[6], 'double': mv[7]}
+            after = ref_make(d, p)
+            mb2 = mailbox({'bb': after['bb']})
+            ksq = [x for x, v in mb2.items() if v == (B.KING, me)]
+            if ksq and ksq[0] not in attacked_by(mb2, 1 - me):
+                out.append(mv)
+    return out
